@@ -534,12 +534,16 @@ func runStrace(r *rand.Rand, dir string) {
 			os.RemoveAll(store2)
 		}
 		// ---- extract through a temporary file onto an existing destination
-		for _, n := range []string{"1", "4"} {
+		for _, n := range []string{"1", "4", "1a", "4a"} {
 			scen++
 			ddir := filepath.Join(fx.dir, "dest"+n)
 			os.MkdirAll(ddir, 0755)
 			dest := filepath.Join(ddir, "out")
-			must(os.WriteFile(dest, []byte("previous content"), 0644))
+			if strings.HasSuffix(n, "a") { // the destination does not exist before: "previous state" = absent
+				n = strings.TrimSuffix(n, "a")
+			} else {
+				must(os.WriteFile(dest, []byte("previous content"), 0644))
+			}
 			logf := filepath.Join(fx.dir, "strace.log")
 			must(straceRun(logf, binary, "--config", fx.cfg, "extract", "-n", n, "-s", fx.store, fx.index, dest))
 			evs := parseStrace(logf)
@@ -573,7 +577,9 @@ func runStrace(r *rand.Rand, dir string) {
 func runXkill(r *rand.Rand, dir string, thorough bool) {
 	fx := mkFixture(r, filepath.Join(dir, "fxk"), r.Intn(2) == 0)
 	groups := []string{"rename,renameat,renameat2", "unlink,unlinkat", "truncate,ftruncate", "pwrite64,write", "openat", "close"}
-	for _, n := range []string{"1", "4"} {
+	for _, n := range []string{"1", "4", "1a", "4a"} {
+		absent := strings.HasSuffix(n, "a")
+		n = strings.TrimSuffix(n, "a")
 		for _, g := range groups {
 			maxK := 400
 			for k := 1; k <= maxK; k++ {
@@ -583,7 +589,9 @@ func runXkill(r *rand.Rand, dir string, thorough bool) {
 				os.MkdirAll(ddir, 0755)
 				dest := filepath.Join(ddir, "out")
 				prev := []byte("previous content of the destination")
-				must(os.WriteFile(dest, prev, 0644))
+				if !absent {
+					must(os.WriteFile(dest, prev, 0644))
+				}
 				cmd := exec.Command("strace", "-f", "-o", "/dev/null", "-e", "trace="+g, "-e", fmt.Sprintf("inject=%s:signal=SIGKILL:when=%d", g, k), "--",
 					binary, "--config", fx.cfg, "extract", "-n", n, "-s", fx.store, fx.index, dest)
 				cmd.Env = append(os.Environ(), "HOME=/nonexistent")
@@ -591,6 +599,8 @@ func runXkill(r *rand.Rand, dir string, thorough bool) {
 				got, rerr := os.ReadFile(dest)
 				state := "other"
 				switch {
+				case rerr != nil && absent:
+					state = "prev" // it did not exist before either
 				case rerr != nil:
 					state = "gone"
 				case bytes.Equal(got, prev):
@@ -599,7 +609,7 @@ func runXkill(r *rand.Rand, dir string, thorough bool) {
 					state = "new"
 				}
 				left, _ := filepath.Glob(filepath.Join(ddir, ".out*"))
-				w.Emit(J{"ev": "xkill", "scen": scen, "n": n, "sys": g, "k": k, "survived": err == nil, "dest": state, "leftover_tmp": len(left), "out": firstLine(string(out))})
+				w.Emit(J{"ev": "xkill", "scen": scen, "n": n, "absent": absent, "sys": g, "k": k, "survived": err == nil, "dest": state, "leftover_tmp": len(left), "out": firstLine(string(out))})
 				if err == nil { // the k-th call never happened: the sweep of this group is complete
 					break
 				}
